@@ -370,7 +370,13 @@ func runGenesis(r *hx.R, n int, w *hx.W, _ []string) error {
 						deps.Ctx = ctx
 					}
 					ok.SetPrice(ctx, asset.MustNewPair("unibi:uusd"), sdkmath.LegacyNewDecWithPrec(r.Range(1, 99999), 3))
-					ok.FeederDelegations.Insert(ctx, val, deps.Sender.NibiruAddr)
+					if r.Chance(1, 2) {
+						ok.FeederDelegations.Insert(ctx, val, deps.Sender.NibiruAddr)
+					} else {
+						// the validator took its consent back: an explicit delegation to its own account (what MsgDelegateFeedConsent
+						// writes), which export and import have to carry over like any other entry
+						ok.FeederDelegations.Insert(ctx, val, sdk.AccAddress(val))
+					}
 					ok.MissCounters.Insert(ctx, val, uint64(r.Range(0, 20)))
 					// a pending prevote: submitted in this vote period or anywhere in the previous one (both are still revealable /
 					// not yet swept), with a short vote period so that the export can fall several periods into the chain
